@@ -115,8 +115,9 @@ META = dict(
                 "eval_assign_statement_frame), so the declaring chain and every other invocation's scopes are untouched (sink_body_leaves_others_alone) — "
                 "no hypothesis about what evaluation writes; the right side may be any arithmetic expression (+ - * / //, nested) over variables and number "
                 "literals (arithExpr_reads, computed_body_frame, computed_body_leaves_others_alone); and what another invocation then reads is unchanged: every such "
-                "expression B evaluates in its own scopes gives the same result after A's body as before (arithExpr_value_local, computed_body_noninterference). "
-                "`if` (allocation), x.* calls, strings, and the interleaving of whole bodies (isolation via isolation_mod) are NOT done. Otherwise hW is discharged only as far as the regenerated syntactic facts go; locals created by the statements "
+                "expression B evaluates in its own scopes gives the same result after A's body as before (arithExpr_value_local, computed_body_noninterference); "
+                "round 7: the same two theorems with true / false / null and raw string literals also allowed on the right (read_body_frame, read_body_noninterference). "
+                "`if` (allocation), x.* calls, interpolating strings, comparisons, and the interleaving of whole bodies (isolation via isolation_mod) are NOT done. Otherwise hW is discharged only as far as the regenerated syntactic facts go; locals created by the statements "
                 "are covered by hW, not by an instance theorem. Tie to /repo: facts + stress compared with the model-computed per-event table."),
     level_note=("Trusted: Lean kernel + propext/Classical.choice/Quot.sound; the syntactic extractors (no alias analysis); sequential consistency; "
                 "the evaluator itself is not modelled (no Lean port of statement evaluation inside these models); the engine's error recording is "
